@@ -28,6 +28,9 @@ pub struct IrGen<'t, 'c> {
     pub allow_compiler_ops: bool,
     /// input queries get distinct names (two blocks with one name are outside the domain)
     pub input_serial: usize,
+    /// spelling of parameter names in this tree (an IR need not come from the language, which lower-cases):
+    /// decided when the first parameter is generated
+    pub name_style: Option<usize>,
 }
 
 const PARAM_POOL: [&str; 5] = ["qty", "who", "tag", "deadline", "extra"];
@@ -64,6 +67,7 @@ impl<'t, 'c> IrGen<'t, 'c> {
             allow_params: true,
             allow_compiler_ops: true,
             input_serial: 0,
+            name_style: None,
         }
     }
 
@@ -314,7 +318,27 @@ impl<'t, 'c> IrGen<'t, 'c> {
                         };
                         let ty = if name == "extra" { Type::Undefined } else { ty };
                         let _ = PARAM_POOL;
-                        Param::ExpectValue(name.to_string(), ty)
+                        let style = match self.name_style {
+                            Some(s) => s,
+                            None => {
+                                let s = self.t.weighted(&[6, 1, 1]);
+                                self.name_style = Some(s);
+                                s
+                            }
+                        };
+                        let name = match style {
+                            0 => name.to_string(),
+                            1 => {
+                                self.k("Param:name_not_lowercase");
+                                let mut c = name.chars();
+                                c.next().map(|f| f.to_uppercase().collect::<String>() + c.as_str()).unwrap_or_default()
+                            }
+                            _ => {
+                                self.k("Param:name_not_lowercase");
+                                name.to_uppercase()
+                            }
+                        };
+                        Param::ExpectValue(name, ty)
                     }
                     2 => {
                         self.k("Param::ExpectInput");
